@@ -18,6 +18,19 @@ fn reporter(y: usize, x: usize, m: Module) -> String {
     format!("M{},{}t{}v{};", x, y, m.module_type() as u8, m.value() as u8)
 }
 
+/// the same report, but the callback itself uses the crate while a rendering is in progress (it builds another symbol
+/// and renders it as SVG and as text every 16th call): callbacks are user code and may do that
+fn reentrant_reporter(y: usize, x: usize, m: Module) -> String {
+    if (x + 3 * y) % 16 == 0 {
+        if let Ok(q) = fast_qr::QRBuilder::new(format!("INNER {} {}", x, y)).build() {
+            let inner = SvgBuilder::default().shape(Shape::Command(reporter)).margin(1).to_str(&q);
+            let text = q.to_str();
+            assert!(inner.len() > 100 && text.len() > 100);
+        }
+    }
+    reporter(y, x, m)
+}
+
 thread_local! {
     /// calls received by `recorder` on this thread: (y, x, type, value)
     static CALLS: std::cell::RefCell<Vec<(usize, usize, u8, u8)>> = std::cell::RefCell::new(Vec::new());
@@ -72,7 +85,7 @@ pub fn check(bc: &BuildCase, with_callback: bool, obs: &mut Obs) -> Result<(), F
         let margin = (bc.input.len() + v) % 7;
         // renderer configurations around the callback: alone; with an embedded image (second converter option);
         // as the second layer after a built-in shape, with an image and an explicit layer colour
-        let variant = bc.hash() % 3;
+        let variant = bc.hash() % 4;
         let svg = catch(|| {
             let mut b = SvgBuilder::default();
             b.margin(margin);
@@ -83,6 +96,9 @@ pub fn check(bc: &BuildCase, with_callback: bool, obs: &mut Obs) -> Result<(), F
                 1 => {
                     b.shape(Shape::Command(reporter));
                     b.image("logo.png".to_string());
+                }
+                3 => {
+                    b.shape(Shape::Command(reentrant_reporter));
                 }
                 _ => {
                     b.image("data:image/png;base64,AAAA".to_string());
@@ -118,7 +134,7 @@ pub fn check(bc: &BuildCase, with_callback: bool, obs: &mut Obs) -> Result<(), F
         }
         // completeness (one call per dark module) is asserted only without an embedded image: whether modules covered
         // by the image are handed to the callback is not this property's business (C12 speaks about drawn modules)
-        for i in (0..n * n).filter(|_| variant == 0) {
+        for i in (0..n * n).filter(|_| variant == 0 || variant == 3) {
             ensure!(seen[i] == built.qr.data[i].value(), "callback_missing", "callback {} for (row {}, col {}) although the module is {}", if seen[i] { "invoked" } else { "not invoked" }, i / n, i % n, if seen[i] { "light" } else { "dark" });
         }
         obs.label("with_callback");
